@@ -518,6 +518,9 @@ def unit(root='/repo'):
     items += [
         Raw(PRE_PT),
         Fn(UTIL, None, 'enosys', ensures=['r.os_code() == Some(38i32)'], props=['C15']),
+        # the other two errno helpers of util.rs: not used by the covered functions today, extracted so that a version of them that does use one is still in reach
+        Fn(UTIL, None, 'eperm', ensures=['r.os_code() == Some(1i32)'], props=['C15']),
+        Fn(UTIL, None, 'einval', ensures=['r.os_code() == Some(22i32)'], props=['C15']),
         Group('impl InodeStore {', [
             Fn(STORE, 'impl InodeStore', 'clear',
                ensures=['final(self).data@ == Map::<Inode, Arc<InodeData>>::empty() // [C15.inodes.clear]'], props=['C15']),
